@@ -3185,6 +3185,9 @@ class NonTensorData:
     ) -> T:
         if isinstance(input_dict_or_td, NonTensorData):
             data = input_dict_or_td.data
+            if data is self.data:
+                # nothing to write (a locked entry must not refuse its own data, e.g. in apply_)
+                return self
             if inplace and self._tensordict._is_shared:
                 _update_shared_nontensor(self._non_tensordict["data"], data)
                 return self
